@@ -305,13 +305,21 @@ func verifH_C06_multipart() {
 	verifReach("end")
 }
 
-//verif:harness id=C06 tier=quick,thorough witness=end bounds="application/json bodies (concrete texts through the JSON contract model / native encoding/json): 15 texts (objects satisfying or violating the schema, an array, a scalar, truncated text, a value followed by garbage / by a stray closing brace or bracket / by a comma / by white space, two values, empty, whitespace only, null) against {type: object, required [a], properties {a: integer minimum symbolic}}; accepted exactly when the text is one JSON value that satisfies the schema"
+//verif:harness id=C06 tier=quick,thorough witness=end bounds="application/json bodies (concrete texts through the JSON contract model / native encoding/json): 15 texts (objects satisfying or violating the schema, an array, a scalar, truncated text, a value followed by garbage / by a stray closing brace or bracket / by a comma / by white space, two values, empty, whitespace only, null) against {type: object, required [a], properties {a: integer minimum symbolic}}, the empty schema {} or a schema with annotations only; accepted exactly when the text is one JSON value that satisfies the schema"
 func verifH_C06_json_texts() {
 	min := verifNondetFloat64("min")
 	verifAssume(min == min)
 	obj := &openapi3.Schema{Type: &openapi3.Types{"object"}, Required: []string{"a"}, Properties: openapi3.Schemas{"a": {Value: &openapi3.Schema{Type: &openapi3.Types{"integer"}, Min: &min}}}}
 	texts := []string{`{"a":5}`, `{"a":-2}`, `{"b":1}`, `[1]`, `7`, `{"a":5`, `{"a":5} trailing`, `{"a":5}{"a":6}`, ``, `  `, `null`, `{"a":5}}`, `{"a":5}]`, `{"a":5},`, `{"a":5} ` + "\n"}
 	k := verifChoose("text", len(texts))
+	// ... or against a schema that constrains nothing ({} or annotations only): still one JSON value, and not null
+	unconstrained := verifChoose("unconstrained", 3)
+	switch unconstrained {
+	case 1:
+		obj = &openapi3.Schema{}
+	case 2:
+		obj = &openapi3.Schema{Description: "anything", Title: "t"}
+	}
 	rb := &openapi3.RequestBody{Required: true, Content: openapi3.Content{"application/json": &openapi3.MediaType{Schema: &openapi3.SchemaRef{Value: obj}}}}
 	op := &openapi3.Operation{RequestBody: &openapi3.RequestBodyRef{Value: rb}}
 	input := verifBodyInput(op, "application/json", texts[k], true, &Options{})
@@ -324,6 +332,9 @@ func verifH_C06_json_texts() {
 		want = -2 >= min
 	case 14:
 		want = 5 >= min // white space may follow the value
+	}
+	if unconstrained != 0 {
+		want = k <= 4 || k == 14
 	}
 	verifAssert((err == nil) == want, "C06 json texts: a body is accepted exactly when it is one JSON value satisfying the schema")
 	verifReach("end")
